@@ -1067,6 +1067,51 @@ fn check_are_endpoints_securities_compatible(
   }
 }
 
+// Verification hooks: drive the discovery-notification handlers without a
+// running event loop.
+#[cfg(rustdds_verif)]
+impl DPEventLoop {
+  pub(crate) fn verif_add_local_reader(&mut self, reader_ing: ReaderIngredients) {
+    self.add_local_reader(reader_ing);
+  }
+
+  pub(crate) fn verif_add_local_writer(&mut self, writer_ing: WriterIngredients) {
+    self.add_local_writer(writer_ing);
+  }
+
+  /// Handles one discovery notification with the same handlers as the
+  /// DISCOVERY_UPDATE_NOTIFICATION_TOKEN arm of event_loop().
+  pub(crate) fn verif_discovery_notification(&mut self, dnt: DiscoveryNotificationType) {
+    use DiscoveryNotificationType::*;
+    match dnt {
+      WriterUpdated {
+        discovered_writer_data,
+      } => self.remote_writer_discovered(&discovered_writer_data),
+      WriterLost { writer_guid } => self.remote_writer_lost(writer_guid),
+      ReaderUpdated {
+        discovered_reader_data,
+      } => self.remote_reader_discovered(&discovered_reader_data),
+      ReaderLost { reader_guid } => self.remote_reader_lost(reader_guid),
+      ParticipantUpdated { guid_prefix } => self.update_participant(guid_prefix),
+      ParticipantLost { guid_prefix } => self.remote_participant_lost(guid_prefix),
+      _ => {}
+    }
+  }
+
+  /// Matched remote endpoints of a local reader or writer.
+  pub(crate) fn verif_matched(&self, local: EntityId) -> Option<Vec<GUID>> {
+    if let Some(w) = self.writers.get(&local) {
+      Some(w.verif_matched_readers())
+    } else {
+      self
+        .message_receiver
+        .available_readers
+        .get(&local)
+        .map(Reader::verif_matched_writers)
+    }
+  }
+}
+
 // -----------------------------------------------------------
 // -----------------------------------------------------------
 // -----------------------------------------------------------
